@@ -6,6 +6,7 @@ CONSTANTS MaxPre = 1 MaxN = 3
   FlowKinds = {"ctx"}
   Drivers = {"split"}
   Places = {"middle"}
+  StopFlag = "per_branch"
   CopyMode = "shared"
   Bufs <- BufQuick
 INVARIANT DriversAgree
